@@ -24,7 +24,13 @@ SPEC = dict(
           "CONNECT through the real client transport, hold past the duration limit, disconnect, clock advance, concurrent "
           "batches) and the schedule; non-trivial = at least one reservation granted and one CONNECT attempted; distinct = "
           "distinct (configuration, operation/result history, scheduler decision hash)"),
-    probes=[],
+    probes=["batch", "refresh-granted", "refresh-from-other-ip-granted", "refresh-refused-while-holding", "moved-keeping-reservation",
+            "reserve-refused-total-cap", "reserve-refused-per-ip-cap", "reserve-refused-acl", "reserve-refused-relayed",
+            "connect-refused-acl", "connect-refused-relayed", "circuit-cap-hit-source", "circuit-cap-hit-destination",
+            "no-reservation-never-reserved", "no-reservation-after-disconnect", "no-reservation-after-expiry-and-collection",
+            "connect-ok-on-expired-uncollected-or-uncertain", "disconnect-of-reservation-holder",
+            "data-limit-hit-forward", "data-limit-hit-backward", "data-exactly-at-limit-forward", "data-exactly-at-limit-backward",
+            "duration-limit-hit", "real-connect-ok", "real-echo-ok", "connection-failed"],
     real=["ALL of the following run as tasks of the seeded scheduler (instrumented)", "circuitv2 relay (relay.go, constraints.go)",
           "circuitv2 client (Reserve, transport dial / listen / stop handler)", "basic host, identify", "swarm", "tcp transport dial path",
           "upgrader + listener", "noise / insecure", "multistream-select", "yamux", "resource manager (real, infinite limits) behind "
